@@ -211,6 +211,27 @@ fn run(rng: &mut Rng, idx: u64, tier: Tier) -> CaseOut {
             return out;
         }
     }
+    // the substituted formula as one member of a batch whose other members use the labels one at a time
+    // (every label of the context has to reach the evaluation, whichever formula mentions it first)
+    {
+        let mut batch: Vec<String> = picked.iter().map(|(l, _)| F::Wild(l.clone()).canon()).collect();
+        batch.push(gtext.clone());
+        rng.shuffle(&mut batch);
+        let refs: Vec<&str> = batch.iter().map(|s| s.as_str()).collect();
+        let res = get!(call(|| biodivine_hctl_model_checker::model_checking::model_check_multiple_extended_formulae_dirty(refs.clone(), &sys.graph, &ctx)), format!("batch {batch:?} with the substitution context"));
+        if res.len() != batch.len() {
+            out.violate("wrong number of results", format!("{} results for batch {batch:?}", res.len()), detail("label batch"));
+            return out;
+        }
+        for (i, t) in batch.iter().enumerate() {
+            let expected = if *t == gtext { plain.clone() } else { get!(run_ep(Ep::ExtendedDirty, t, &sys, &ctx), format!("single evaluation of `{t}`")) };
+            if res[i] != expected {
+                violate_diff(&mut out, &world, &sys, "substituting a pre-computed result changes the outcome", (&text, &expected), (t, &res[i]), vec![("batch", J::arr_str(&batch)), ("position", J::Int(i as i64))]);
+                return out;
+            }
+        }
+        out.count("label_batches");
+    }
     let r = get!(run_ep(Ep::Extended, &gtext, &sys, &ctx), "sanitised evaluation of the substituted formula");
     if r != plain_san {
         out.violate("substituting a pre-computed result changes the outcome", format!("sanitised: `{text}` vs `{gtext}`"), detail("sanitised"));
